@@ -34,6 +34,23 @@ impl<T: Clone> TryClone for T {
     }
 }
 
+/// Does the searcher type claim std's `DoubleEndedSearcher` marker? If it does, std turns
+/// Split / Matches / MatchIndices over the pattern into DoubleEndedIterators and slices
+/// unchecked on the strength of the claim that the two ends never walk past each other.
+trait DeProbe {
+    fn claims_double_ended(&self) -> bool;
+}
+impl<T> DeProbe for T {
+    default fn claims_double_ended(&self) -> bool {
+        false
+    }
+}
+impl<'a, T: std::str::pattern::DoubleEndedSearcher<'a>> DeProbe for T {
+    fn claims_double_ended(&self) -> bool {
+        true
+    }
+}
+
 // ------------------------------------------------------------------ reference searcher
 //
 // A small executable reference model of the searcher: given the find_iter matches of the
@@ -509,6 +526,7 @@ struct SExec {
     sibling_steps: usize,
     big_worlds: usize,
     clone_swaps: usize,
+    claims_de: bool,
     sim_steps: u64,
     outcome_hash: u64,
 }
@@ -741,6 +759,11 @@ fn step_to_obs(s: SearchStep) -> Obs {
     }
 }
 
+thread_local! {
+    /// set per world: the searcher type claims DoubleEndedSearcher, so independent coverage is not acceptable
+    static DE_CLAIMED: std::cell::Cell<bool> = const { std::cell::Cell::new(false) };
+}
+
 fn finish_searcher(w: &SWorld, f: &[(usize, usize)], fw: &DirState, bw: &DirState, drained: bool, viols: &mut Vec<SViol>, op: usize) {
     let len = w.hay.len();
     let bound = 4 * len + 8;
@@ -774,7 +797,7 @@ fn finish_searcher(w: &SWorld, f: &[(usize, usize)], fw: &DirState, bw: &DirStat
     }
     if drained && fw.done && bw.done {
         // coverage: two independent full tilings, or the two ends met exactly
-        let independent = (fw.frontier == len || fw.unknown_tail) && (bw.frontier == 0 || bw.unknown_tail);
+        let independent = !DE_CLAIMED.with(|c| c.get()) && (fw.frontier == len || fw.unknown_tail) && (bw.frontier == 0 || bw.unknown_tail);
         let met = if !fw.unknown_tail && !bw.unknown_tail { fw.frontier == bw.frontier } else { bw.frontier >= fw.frontier };
         if !(independent || met) {
             viols.push(SViol {
@@ -808,6 +831,7 @@ fn exec_sworld(w: &SWorld) -> SExec {
         sibling_steps: 0,
         big_worlds: 0,
         clone_swaps: 0,
+        claims_de: false,
         sim_steps: 0,
         outcome_hash: 0,
     };
@@ -846,6 +870,9 @@ fn exec_sworld(w: &SWorld) -> SExec {
         ex.has_empty_match = f.iter().any(|m| m.0 == m.1);
         let len = h.len();
         let mut searcher = (&re).into_searcher(h);
+        let claims_de = searcher.claims_double_ended();
+        ex.claims_de = claims_de;
+        DE_CLAIMED.with(|c| c.set(claims_de && len > 0));
         let mut fw = DirState::new(true, len);
         let mut bw = DirState::new(false, len);
         // sibling searcher: its own haystack, its own reference
@@ -980,6 +1007,13 @@ fn exec_sworld(w: &SWorld) -> SExec {
                 }
                 if fw.calls > 0 && bw.calls > 0 && !(fw.done && fw.calls == 1) && !(bw.done && bw.calls == 1) {
                     ex.both_dirs_before_done = true;
+                }
+                if claims_de && fw.frontier > bw.frontier && !fw.unknown_tail && !bw.unknown_tail {
+                    ex.viols.push(SViol {
+                        clause: "D-double-ended-claimed-but-ends-cross".into(),
+                        detail: format!("the searcher implements DoubleEndedSearcher, but the forward end has covered 0..{} and the backward end {}..{}: std's double-ended Split/Matches slice unchecked on the promise that the ends never pass each other", fw.frontier, bw.frontier, len),
+                        op: i,
+                    });
                 }
             }
             if !ex.viols.is_empty() {
@@ -1170,6 +1204,7 @@ fn cmd_worker(args: &[String]) -> i32 {
         st.add("faults.sibling_searcher_steps", e.sibling_steps as u64);
         st.add("probes.big_haystack_world_conclusive", e.big_worlds as u64);
         st.add("faults.searcher_clone_swaps", e.clone_swaps as u64);
+        st.add("typelevel.searcher_claims_double_ended", e.claims_de as u64);
         st.add("compile_errors", e.compile_err as u64);
         st.add("ops.forward_steps", e.steps_fwd as u64);
         st.add("ops.backward_steps", e.steps_bwd as u64);
